@@ -36,6 +36,8 @@ package keylock
 //@   atunlock #registered1 wcnt(d, key) == old(wcnt(d, key)) + 1
 //@   atunlock #registered2 rcnt(d, key) == old(rcnt(d, key))
 //@   atunlock #registered3 othersSame(d, key)
+//@   ensures #holds(@local) wheld(wrLocker.rwLocker)
+//@   ensures #mutexcalls lockcalls() == old(lockcalls()) + 2 && unlockcalls() == old(unlockcalls()) + 1
 //@   opt keeps-lock
 //@   modifies mapsof(d.lockMap), wrapLocker.readCount, wrapLocker.writeCount, region($alloc)
 //@ func TKeyLocker.RLock
@@ -43,6 +45,8 @@ package keylock
 //@   atunlock #registered1 rcnt(d, key) == old(rcnt(d, key)) + 1
 //@   atunlock #registered2 wcnt(d, key) == old(wcnt(d, key))
 //@   atunlock #registered3 othersSame(d, key)
+//@   ensures #holds(@local) rheld(wrLocker.rwLocker)
+//@   ensures #mutexcalls lockcalls() == old(lockcalls()) + 2 && unlockcalls() == old(unlockcalls()) + 1
 //@   opt keeps-lock
 //@   modifies mapsof(d.lockMap), wrapLocker.readCount, wrapLocker.writeCount, region($alloc)
 //@ func TKeyLocker.Unlock
@@ -51,6 +55,8 @@ package keylock
 //@   atunlock #unregistered1 wcnt(d, key) == old(wcnt(d, key)) - 1
 //@   atunlock #unregistered2 rcnt(d, key) == old(rcnt(d, key))
 //@   atunlock #unregistered3 othersSame(d, key)
+//@   ensures #released(@local) !held(wrLocker.rwLocker)
+//@   ensures #mutexcalls lockcalls() == old(lockcalls()) + 1 && unlockcalls() == old(unlockcalls()) + 2
 //@   opt keeps-lock
 //@   modifies mapsof(d.lockMap), wrapLocker.readCount, wrapLocker.writeCount
 //@ func TKeyLocker.RUnlock
@@ -59,6 +65,8 @@ package keylock
 //@   atunlock #unregistered1 rcnt(d, key) == old(rcnt(d, key)) - 1
 //@   atunlock #unregistered2 wcnt(d, key) == old(wcnt(d, key))
 //@   atunlock #unregistered3 othersSame(d, key)
+//@   ensures #released(@local) !held(wrLocker.rwLocker)
+//@   ensures #mutexcalls lockcalls() == old(lockcalls()) + 1 && unlockcalls() == old(unlockcalls()) + 2
 //@   opt keeps-lock
 //@   modifies mapsof(d.lockMap), wrapLocker.readCount, wrapLocker.writeCount
 //
